@@ -78,12 +78,12 @@ TrGate == IsEvent("Gate") /\ LET e == Trace[l] IN
   /\ gate' = (e.res = "armed") /\ UNCHANGED <<height, txlog, queued, halted, nodeVars, whash, hres>> /\ hh' = height + 1
   /\ last' = Rec("Gate", <<>>)
 
-TrRun == IsEvent("Run") /\ LET e == Trace[l]  need300 == e.long \/ hh <= 303 IN
+TrRun == IsEvent("Run") /\ LET e == Trace[l]  need300 == e.long \/ hh <= 300  need303 == e.long \/ hh <= 303 IN
   /\ height' = e.at /\ txlog' = txlog \o [i \in 1..e.blocks |-> DutyBlock] /\ halted' = (gate /\ e.res = "abort")
   /\ UNCHANGED <<queued, gate, nodeVars, whash, hres, hh>> /\ last' = Rec("Block", DutyBlock)
   /\ Report("C09.NoAbort", gate \/ e.res # "abort")
   /\ Report("C09.GateHalts", gate => (e.res = "abort" /\ e.blocks = 1))
-  /\ Report("C09.RejectedOrSurvived", hres # "accepted" \/ (e.res = "ok" /\ e.m10 /\ e.m50 /\ (need300 => (e.m300 /\ e.m303))))
+  /\ Report("C09.RejectedOrSurvived", hres # "accepted" \/ (e.res = "ok" /\ e.m10 /\ e.m50 /\ (need300 => e.m300) /\ (need303 => e.m303)))
 
 TrGov == IsEvent("GovAction") /\ LET e == Trace[l] IN
   /\ Fresh /\ height' = Base /\ txlog' = <<>> /\ last' = Rec("Init", <<>>) /\ hres' = "none" /\ hh' = 0 /\ UNCHANGED whash
